@@ -226,14 +226,33 @@ impl Exec for VTimeExec {
                 so.tags.push(classify(ns, base, voucher));
                 so
             }
-            ["now", delta, kind] => {
+            // `new_or_die` (track apigaps): a value inside the rule, a panic outside, never anything else
+            ["new_or_die", ns, base, voucher] => {
+                let Some((ns, dt, base, voucher)) = parse_triple(ns, base, voucher) else { return StepOut::bad() };
+                // the construction and the accessors are caught separately: an invalid value that
+                // `new_or_die` lets through must not hide behind the accessors' own self-check panic
+                let made = catch_unwind(AssertUnwindSafe(|| VouchedTime::new_or_die(dt, base, voucher_of(voucher))));
+                let res = made.map(|vt| {
+                    catch_unwind(AssertUnwindSafe(|| {
+                        let lt = vt.get_local_time();
+                        vt.check_or_die();
+                        lt
+                    }))
+                    .ok()
+                });
+                let mut so = judge_or_die("new_or_die", res, ns, Some((base, voucher)));
+                so.tags.push(format!("or_die_{}", classify(ns, base, voucher)));
+                so
+            }
+            [op @ ("now" | "now_or_die"), delta, kind] => {
                 let Ok(delta) = delta.parse::<i128>() else { return StepOut::bad() };
                 if !matches!(*kind, "ok" | "bad" | "fail") {
                     return StepOut::bad();
                 }
+                let or_die = *op == "now_or_die";
                 let mut seen: Option<(i128, Option<(u64, u64)>)> = None;
                 let res = catch_unwind(AssertUnwindSafe(|| {
-                    VouchedTime::now(|now| {
+                    let provider = |now: time::OffsetDateTime| {
                         let clock = now.unix_timestamp_nanos();
                         if *kind == "fail" {
                             seen = Some((clock, None));
@@ -244,11 +263,22 @@ impl Exec for VTimeExec {
                         let voucher = params().nfs.vouch(vouched);
                         seen = Some((clock, Some((base, bits_of(voucher)))));
                         Ok((base, voucher))
-                    })
-                    .map(|vt| {
-                        let lt = vt.get_local_time();
-                        vt.check_or_die();
-                        lt
+                    };
+                    let made = if or_die { Ok(VouchedTime::now_or_die(provider)) } else { VouchedTime::now(provider) };
+                    made.map(|vt| {
+                        if or_die {
+                            // caught separately (see `new_or_die`)
+                            catch_unwind(AssertUnwindSafe(|| {
+                                let lt = vt.get_local_time();
+                                vt.check_or_die();
+                                lt
+                            }))
+                            .ok()
+                        } else {
+                            let lt = vt.get_local_time();
+                            vt.check_or_die();
+                            Some(lt)
+                        }
                     })
                 }));
                 let Some((clock, answer)) = seen else {
@@ -257,13 +287,18 @@ impl Exec for VTimeExec {
                     so.violations.push("C14 now() did not consult the provider".into());
                     return so;
                 };
+                let verb = if or_die { "nowat_or_die" } else { "nowat" };
                 let line = match answer {
-                    Some((b, v)) => format!("nowat {} {} {}", clock, b, v),
-                    None => format!("nowat {} fail", clock),
+                    Some((b, v)) => format!("{} {} {} {}", verb, clock, b, v),
+                    None => format!("{} {} fail", verb, clock),
                 };
-                let mut so = judge_new("now", res, clock, answer);
+                let mut so = if or_die {
+                    judge_or_die("now_or_die", res.map(|r| r.expect("now_or_die returned")), clock, answer)
+                } else {
+                    judge_new("now", res.map(|r| r.map(|lt| lt.expect("not caught separately"))), clock, answer)
+                };
                 so.obs.insert(0, late_input("now", &line));
-                so.tags.push(format!("now_{}", kind));
+                so.tags.push(format!("{}_{}", op, kind));
                 so
             }
             _ => StepOut::bad(),
@@ -304,6 +339,41 @@ fn judge_new(
         Err(_) => {
             so.obs.push("panic".into());
             so.violations.push(format!("C14 panicked: {}", desc));
+        }
+    }
+    so
+}
+
+/// Observation + oracle for an `_or_die` constructor: a value exactly inside the rule, a panic outside.
+fn judge_or_die(what: &str, res: std::thread::Result<Option<time::PrimitiveDateTime>>, ns: i128, answer: Option<(u64, u64)>) -> StepOut {
+    let mut so = StepOut::default();
+    let expected = match answer {
+        Some((base, voucher)) => c14_expected(ns, base, voucher),
+        None => false,
+    };
+    let desc = format!("{} ns={} answer={:?}", what, ns, answer);
+    match res {
+        Ok(lt) => {
+            match lt {
+                Some(lt) => {
+                    so.obs.push(format!("ok lt={}", ns_of(lt)));
+                    if ns_of(lt) != ns {
+                        so.violations.push(format!("C14 get_local_time reports {} instead of the construction time: {}", ns_of(lt), desc));
+                    }
+                }
+                None => so.obs.push("ok lt=panic".into()),
+            }
+            if !expected {
+                so.violations.push(format!("C14 a VouchedTime exists outside the rule: {}", desc));
+            } else if lt.is_none() {
+                so.violations.push(format!("C14 get_local_time / check_or_die panicked on a value inside the rule: {}", desc));
+            }
+        }
+        Err(_) => {
+            so.obs.push("panic".into());
+            if expected {
+                so.violations.push(format!("C14 died inside the rule: {}", desc));
+            }
         }
     }
     so
@@ -437,6 +507,7 @@ impl Family for VTimeFamily {
             for base in bases_for(l) {
                 let good = bits_of(p.nfs.vouch(base));
                 ops.push(format!("new {} {} {}", ns, base, good));
+                ops.push(format!("new_or_die {} {} {}", ns, base, good));
                 ops.push(format!("check {} {} {}", ns, base, good));
                 ops.push(format!("new {} {} {}", ns, base, bits_of(p.nfs.vouch(base.wrapping_add(1)))));
                 if thorough {
@@ -478,8 +549,11 @@ impl Family for VTimeFamily {
             // d = base - clock; the reading happens inside now(), so exact edges are hit
             ops.push(format!("now {} ok", -d));
             ops.push(format!("now {} bad", -d));
+            ops.push(format!("now_or_die {} ok", -d));
         }
         ops.push("now 0 fail".to_string());
+        ops.push("now_or_die 0 fail".to_string());
+        ops.push("now_or_die 0 bad".to_string());
         cases.push(ops);
         cases
     }
@@ -504,7 +578,8 @@ impl Family for VTimeFamily {
                         0 => *rng.pick(&[-2991i64, -2990, 59_900, 59_901]),
                         _ => rng.range(0, 70_000) as i64 - 5_000,
                     };
-                    ops.push(format!("now {} {}", -d, *rng.pick(&["ok", "ok", "ok", "bad", "fail"])));
+                    let verb = if rng.chance(1, 4) { "now_or_die" } else { "now" };
+                    ops.push(format!("{} {} {}", verb, -d, *rng.pick(&["ok", "ok", "ok", "bad", "fail"])));
                 }
                 _ => {
                     let ns = random_local(rng);
@@ -519,7 +594,7 @@ impl Family for VTimeFamily {
                     };
                     let k = rng.below(12);
                     let v = voucher_for(k, base, rng);
-                    let op = if rng.chance(3, 4) { "new" } else { "check" };
+                    let op = *rng.pick(&["new", "new", "new", "check", "new_or_die"]);
                     ops.push(format!("{} {} {} {}", op, ns, base, v));
                 }
             }
